@@ -88,6 +88,11 @@ func main() {
 			fatal("usage: clusterops sched-time <behaviours> <trace>")
 		}
 		schedTimeMain(os.Args[2], os.Args[3])
+	case "reloc":
+		if len(os.Args) != 4 {
+			fatal("usage: clusterops reloc <behaviours> <trace>")
+		}
+		relocMain(os.Args[2], os.Args[3])
 	default:
 		fatal("unknown command", os.Args[1])
 	}
